@@ -9,8 +9,10 @@
 * the variant loop, lines 581-612 (`variantLoop`/`stepV`): an empty variant is `Int31`; the first
   non-empty variant may become `Unboxed` if it has exactly one field whose type passes
   `type_permit_enum_boxed_optimization`; a later non-empty variant reverts it to `Boxed`.
-* `type_permit_enum_boxed_optimization`, lines 634-663 (`permit`): `int` → false; a *done* enum →
-  all variants `Boxed`; a type that is **in progress** → `true` (the order-dependent test).
+* `type_permit_enum_boxed_optimization`, lines 638-670 (`permit`): `int` → false; a *done* enum →
+  all variants `Boxed`; an enum that is **in progress** → `false` (since /repo e715c2f; before that
+  fix it answered `true`, which conflated `Cons(Nil)` with `Nil` — C01-F1 / C12-F3).  The answer
+  still depends on whether the referenced type is done or in progress, i.e. on the demand order.
 Only enums are modelled (a struct field type always permits; not needed for the witness).
 -/
 namespace SamVerif.Layout
@@ -44,7 +46,7 @@ def permit (st : St) : Ty → Bool
   | .int => false
   | .id n =>
     match lookup st.done n with
-    | none => st.names.contains n
+    | none => false      -- in progress (or unknown): an enum still being decided may become i31/unboxed
     | some vs => vs.all (· == .boxed)
 
 structure LoopSt where
@@ -68,6 +70,25 @@ def stepV (s : LoopSt) (v : Nat × Bool) : LoopSt :=
 def variantLoop (vs : List (Nat × Bool)) : List VLayout :=
   (vs.foldl stepV { out := [], permitFlag := true, pending := none }).out
 
+/-- Demand the `Id` field types of one variant, left to right (lines 596-598). `rec` is the
+recursive `rewrite_type`. -/
+def demandFields (rec : St → Nat → St) (s : St) (fields : List Ty) : St :=
+  fields.foldl (fun s t => match t with
+    | .int => s
+    | .id m => rec s m) s
+
+/-- `type_permit_enum_boxed_optimization(mapping_types[1])` for the variant's first field. -/
+def firstBit (st : St) : List Ty → Bool
+  | t :: _ => permit st t
+  | [] => false
+
+/-- The loop over the variants as far as it touches the specialisation state: per variant, demand
+the field types, then evaluate the permit bit. Returns the state and `(arity, bit)` per variant. -/
+def demandVariants (rec : St → Nat → St) (st : St) (variants : List (List Ty)) : St × List (Nat × Bool) :=
+  variants.foldl (fun acc fields =>
+    let st' := demandFields rec acc.1 fields
+    (st', acc.2 ++ [(fields.length, firstBit st' fields)])) (st, [])
+
 /-- `rewrite_type` on `Id n` (fuel = recursion depth; `defs.length + 1` always suffices because
 every recursive call first adds a new name to `names`). -/
 def demand (defs : Defs) : Nat → St → Nat → St
@@ -77,17 +98,8 @@ def demand (defs : Defs) : Nat → St → Nat → St
     match lookup defs n with
     | none => st
     | some variants =>
-      let st := { st with names := n :: st.names }
-      -- per variant: demand the field types, then evaluate the permit bit of the first field
-      let (st, bits) := variants.foldl (fun (acc : St × List (Nat × Bool)) fields =>
-        let st' := fields.foldl (fun s t => match t with
-          | .int => s
-          | .id m => demand defs fuel s m) acc.1
-        let bit := match fields with
-          | t :: _ => permit st' t
-          | [] => false
-        (st', acc.2 ++ [(fields.length, bit)])) (st, [])
-      { st with done := (n, variantLoop bits) :: st.done }
+      let r := demandVariants (demand defs fuel) { st with names := n :: st.names } variants
+      { r.1 with done := (n, variantLoop r.2) :: r.1.done }
 
 /-- Specialise from the given roots in order (each root = a type first mentioned by a `main`). -/
 def layoutAll (defs : Defs) (roots : List Nat) : St :=
